@@ -90,6 +90,7 @@ def run(F, tier):
     valid.v1(rep, F)
     valid.v2(rep, F)
     v5(rep, F, tms)
+    v4.v3(rep, F)
     v4.v4(rep, F, tms)
     v4.v4s(rep, F, tms)
     rep.sample({"rule_fn_counts": rep.rules.get("V1n", {}).get("counts")})
